@@ -17,20 +17,20 @@ void *memchr(const void *s, int c, size_t n)
 	return NULL;
 }
 
-/* base-10 only, which is all echse asks for; saturation beyond +-10 digits is
- * outside what the harnesses feed it */
+/* bases 10, 8 and 0 (auto: leading 0 = octal), which is all echse asks for; at most
+ * 10 digits: longer inputs are outside what the harnesses feed it */
 long int strtol(const char *s, char **on, int base)
 {
 	long int r = 0;
 	int neg = 0;
 	size_t i = 0;
-	(void)base;
 	while (s[i] == ' ' || s[i] == '\t') i++;
 	if (s[i] == '-') neg = 1, i++;
 	else if (s[i] == '+') i++;
+	if (base == 0) base = s[i] == '0' ? 8 : 10;
 	size_t d0 = i;
-	for (unsigned k = 0; k < 10U && s[i] >= '0' && s[i] <= '9'; k++, i++) {
-		r = r * 10 + (s[i] - '0');
+	for (unsigned k = 0; k < 10U && s[i] >= '0' && s[i] < '0' + base; k++, i++) {
+		r = r * base + (s[i] - '0');
 	}
 	if (on != NULL) *on = (char*)(s + (i == d0 ? 0 : i));
 	return neg ? -r : r;
